@@ -253,7 +253,81 @@ def ob_get_distance(env):
         env.claim("returns_implies_strictly_increasing", d[k + 1] > d[k])
 
 
+def ob_spacing_wiring(env):
+    """getSpacings / getTargetParameter / getSfuncFixedSpacing: an X-point end gets the X-point spacing parameters (sqrt: a = xpoint length, b = 0) - the
+    same for the two regions that meet there, so the spacing is continuous across the join - a wall end gets the target parameters of ITS OWN leg;
+    the constructors receive them in their roles together with the contour length, npoints-1 and N_norm, and the result goes through _checkMonotonic"""
+    legs = ("inner_lower", "inner_upper", "outer_upper", "outer_lower")
+    uo = {"xpoint_poloidal_spacing_length": env.real("xpoint_len"), "N_norm_prefactor": env.real("N_norm_prefactor", pos=True),
+          "orthogonal": True, "poloidalfunction_diagnose": False, "poloidal_spacing_method": "sqrt"}
+    no = {"nonorthogonal_xpoint_poloidal_spacing_length": env.real("no_xpoint_len"), "nonorthogonal_xpoint_poloidal_spacing_range": env.real("no_xpoint_range"),
+          "nonorthogonal_xpoint_poloidal_spacing_range_inner": env.real("no_xpoint_range_inner"),
+          "nonorthogonal_xpoint_poloidal_spacing_range_outer": env.real("no_xpoint_range_outer")}
+    for leg in legs:
+        uo["target_%s_poloidal_spacing_length" % leg] = env.real("target_len_" + leg)
+        no["nonorthogonal_target_%s_poloidal_spacing_length" % leg] = env.real("no_target_len_" + leg)
+        for suf in ("", "_inner", "_outer"):
+            no["nonorthogonal_target_%s_poloidal_spacing_range%s" % (leg, suf)] = env.real("no_target_range%s_%s" % (suf, leg))
+    ny_total = env.int("ny_total", lo=1)
+    L = env.real("contour_length", pos=True)
+    npoints = env.int("npoints", lo=2)
+    cases = [("inner_lower_divertor", "wall.X", "inner_lower"), ("inner_upper_divertor", "X.wall", "inner_upper"), ("outer_upper_divertor", "wall.X", "outer_upper"),
+             ("outer_lower_divertor", "X.wall", "outer_lower"), ("inner_core", "X.X", None), ("core", "X.X", None)]
+    for name, kind, leg in cases:
+        r = eqm.EquilibriumRegion.__new__(eqm.EquilibriumRegion)
+        r.name, r.kind, r.ny_total = name, kind, ny_total
+        r.user_options, r.nonorthogonal_options = types.SimpleNamespace(**uo), types.SimpleNamespace(**no)
+        sp = r.getSpacings()
+        for end, k in (("lower", kind.split(".")[0]), ("upper", kind.split(".")[1])):
+            if k == "X":
+                env.claim("xpoint_end:sqrt_a=xpoint_length,b=0", sp["sqrt_a_" + end] is uo["xpoint_poloidal_spacing_length"] and sp["sqrt_b_" + end] == 0.0)
+                env.claim("xpoint_end:monotonic_d=nonorthogonal_xpoint_length", sp["monotonic_d_" + end] is no["nonorthogonal_xpoint_poloidal_spacing_length"])
+                env.claim("xpoint_end:ranges", sp["nonorthogonal_range_" + end] is no["nonorthogonal_xpoint_poloidal_spacing_range"]
+                          and sp["nonorthogonal_range_%s_inner" % end] is no["nonorthogonal_xpoint_poloidal_spacing_range_inner"]
+                          and sp["nonorthogonal_range_%s_outer" % end] is no["nonorthogonal_xpoint_poloidal_spacing_range_outer"])
+            else:
+                env.claim("wall_end:sqrt_a=None,b=target_length_of_this_leg:" + name, sp["sqrt_a_" + end] is None
+                          and sp["sqrt_b_" + end] is uo["target_%s_poloidal_spacing_length" % leg])
+                env.claim("wall_end:monotonic_d=nonorthogonal_target_length_of_this_leg:" + name,
+                          sp["monotonic_d_" + end] is no["nonorthogonal_target_%s_poloidal_spacing_length" % leg])
+                env.claim("wall_end:ranges_of_this_leg:" + name, sp["nonorthogonal_range_" + end] is no["nonorthogonal_target_%s_poloidal_spacing_range" % leg]
+                          and sp["nonorthogonal_range_%s_inner" % end] is no["nonorthogonal_target_%s_poloidal_spacing_range_inner" % leg]
+                          and sp["nonorthogonal_range_%s_outer" % end] is no["nonorthogonal_target_%s_poloidal_spacing_range_outer" % leg])
+        # the constructors get the parameters in their roles
+        rec = {}
+        r.getSqrtPoloidalDistanceFunc = lambda *a, **k: rec.setdefault("sqrt", (a, k)) and "SQRT"
+        r.getMonotonicPoloidalDistanceFunc = lambda *a, **k: rec.setdefault("mono", (a, k)) and "MONO"
+        r.getLinearPoloidalDistanceFunc = lambda *a, **k: rec.setdefault("lin", (a, k)) and "LIN"
+        checked = []
+        r._checkMonotonic = lambda lst, total_distance=None, **k: checked.append((lst, total_distance))
+        f1 = r.getSfuncFixedSpacing(npoints, L, method="sqrt")
+        f2 = r.getSfuncFixedSpacing(npoints, L, method="monotonic")
+        f3 = r.getSfuncFixedSpacing(npoints, L, method="linear")
+        Nn = uo["N_norm_prefactor"] * ny_total
+        (a, k) = rec["sqrt"]
+        env.claim("sqrt_constructor_arguments:" + name, a[0] is L and k == {"b_lower": sp["sqrt_b_lower"], "a_lower": sp["sqrt_a_lower"], "b_upper": sp["sqrt_b_upper"], "a_upper": sp["sqrt_a_upper"]}
+                  and all(k[q] is sp["sqrt_" + q] for q in ("b_lower", "a_lower", "b_upper", "a_upper")))
+        env.claim_eq("sqrt_constructor_N=npoints-1", a[1], npoints - 1)
+        env.claim_eq("sqrt_constructor_N_norm=prefactor*ny_total", a[2], Nn)
+        (a, k) = rec["mono"]
+        env.claim("monotonic_constructor_arguments:" + name, a[0] is L and k["d_lower"] is sp["monotonic_d_lower"] and k["d_upper"] is sp["monotonic_d_upper"] and len(k) == 2)
+        env.claim_eq("monotonic_constructor_N=npoints-1", a[1], npoints - 1)
+        env.claim_eq("monotonic_constructor_N_norm=prefactor*ny_total", a[2], Nn)
+        (a, k) = rec["lin"]
+        env.claim("linear_constructor_arguments", a[0] is L and not k)
+        env.claim_eq("linear_constructor_N=npoints-1", a[1], npoints - 1)
+        env.claim("every_fixed_spacing_function_goes_through_checkMonotonic", (f1, f2, f3) == ("SQRT", "MONO", "LIN") and [c[0][0][0] for c in checked] == ["SQRT", "MONO", "LIN"]
+                  and all(c[1] is L for c in checked))
+    env.witness("wired")
+
+
 ENCM = ["hypnotoad.core.equilibrium:EquilibriumRegion.getMonotonicPoloidalDistanceFunc"]
+OBLIGATIONS.append(Ob("spacing_parameter_wiring", ob_spacing_wiring, tier="quick", family="wiring",
+                      encodes=["hypnotoad.core.equilibrium:EquilibriumRegion.getSpacings", "hypnotoad.core.equilibrium:EquilibriumRegion.getTargetParameter",
+                               "hypnotoad.core.equilibrium:EquilibriumRegion.getSfuncFixedSpacing"],
+                      desc="X-point ends share the X-point spacing parameters (continuity across the join), wall ends use their own leg's target parameters; constructors called with "
+                           "length, npoints-1, N_norm and the parameters in their roles; result checked by _checkMonotonic",
+                      stubs=["the three constructors and _checkMonotonic -> recorders"], bounds="6 region name/kind combinations, all option values symbolic"))
 ENCS = ["hypnotoad.core.equilibrium:EquilibriumRegion.getSqrtPoloidalDistanceFunc"]
 for _case in ("convex", "concave"):
     OBLIGATIONS.append(Ob("monotonic_" + _case, (lambda c: (lambda env: ob_monotonic(env, c)))(_case), tier="quick", family="monotonic", encodes=ENCM,
